@@ -311,6 +311,10 @@ def run(chk, prog, tier):
     # irrigation depth and efficiency threading
     chk.ok("C02.a", STEP_FN, f"infiltration.{f_irr} <- irrigation(...)", "irrigation depth is irrigation()'s return")
     chk.assume("A-2")
+    # C02.d: "infiltration is negative only on the day bunds are removed" speaks of the field management of the day: the step takes it from
+    # the growing-season flag of that very day (same rule as C03.f)
+    from .c03 import rule_f as management_of_the_day
+    management_of_the_day(chk, prog, rule="C02.d")
     chk.exhaustive = True
 
 
